@@ -42,6 +42,18 @@ CLAIMS = {
         "Trusted: rustc / driver / engine normalisers; tokio::fs and std::fs semantics; the reviewed table of WriteBuffer methods that do not insert.",
         "static analysis: MIR edge dominance (must-pass-through), value provenance, who-may-call; lib + ingester binary",
         "DESIGN.md §3 C01"),
+    "C12": (
+        "For the comparison operators the decided part is the property itself, given the extracted formulas: every arm of "
+        "ColumnPredicate::evaluate_against_stats and every value_* helper is symbolically evaluated from typed HIR into a comparison formula; "
+        "R1 for each of Eq/Lt/LtEq/Gt/GtEq/In/Between, each value type and each convertible/unconvertible statistics combination, on EVERY weak "
+        "ordering of (min, max, x, v[, low, high]) with min<=x<=max: predicate(x) implies include (exhaustive over order types, ~7.7k orderings); "
+        "R2 NotEq/NotIn/Not always include, And/Or are implied by their sub-results, every enum variant has an analysable arm; R3 the catalog "
+        "drops a chunk only on the may-not-match side of all(evaluate_against_stats(chunk's own stats)). Code outside the comparison-only "
+        "fragment fails closed. Not decided: float NaN (not totally ordered), correctness of the stored statistics themselves.",
+        "Trusted: rustc typed HIR, the driver, engine/symeval.py, the reference semantics table REF in rules/C12.py (variant -> predicate on a row value), "
+        "total order of i64 / str / non-NaN f64, serde_json as_i64/as_f64/as_str returning None on a type mismatch.",
+        "static analysis: symbolic evaluation of typed HIR + exhaustive ordering abstraction (all weak orderings)",
+        "DESIGN.md §3 C12"),
 }
 
 NOT_YET = "rule set under construction in this round; see DESIGN.md §3 for the planned static rules"
